@@ -13,34 +13,36 @@ def stall_part(res, cfg, binary, rng):
     for prof in ("debug", "release"):
         b = c.build_harness(prof)[0]
         outs = []
-        for mode in (1, 2, 3, 4):
+        MODES = (1, 2, 3, 4, "5 1", "5 2", "5 3")
+        for mode in MODES:
             try:
-                outs.append(c.run_lines(b, ["stall %d" % mode], timeout=90)[0])
+                outs.append(c.run_lines(b, ["stall %s" % mode], timeout=90)[0])
             except c.CheckError as e:
                 if "exited 124" not in str(e):
                     raise
                 outs.append(None)     # the call did not return within 90 s (a budgeted call takes < 1 s)
-        for mode, out in zip((1, 2, 3, 4), outs):
+        for mode, out in zip(MODES, outs):
             if out is None:
                 res.evaluations += 1
-                res.count("stall-mode-%d:no-return" % mode)
-                bad.append({"schedule": "stall %d" % mode, "impl": "no return within 90 s", "profile": prof,
+                res.count("stall-mode-%s:no-return" % mode)
+                bad.append({"schedule": "stall %s" % mode, "impl": "no return within 90 s", "profile": prof,
                             "why": ["snapshot() did not return: the daemon %s and the client call never ended" %
                                     {1: "stalled mid-update right after the client's first generation load", 2: "kept publishing",
-                                     3: "died mid-update after two publications", 4: "was restarted over a wiped segment and never published (generation 0 from the call's first record load on)"}[mode]]})
+                                     3: "died mid-update after two publications", 4: "was restarted over a wiped segment and never published (generation 0 from the call's first record load on)",
+                                     5: "completed %s update(s) while the call was copying, then died in the middle of the next one" % str(mode)[2:]}[int(str(mode)[0])]]})
                 continue
             n, ret, kinds, ms = out.split()[:4]
             n = int(n)
             res.evaluations += 1
-            res.count("stall-mode-%d:%s" % (mode, ret))
+            res.count("stall-mode-%s:%s" % (mode, ret))
             res.extra.setdefault("stall_runs", []).append({"profile": prof, "mode": mode, "accesses": n, "result": ret, "ms": int(ms), "first_accesses": kinds})
             bound = 2 + cfg["retries"] * (_shm.NCELL + 3)
             if n > bound:
-                bad.append({"schedule": "stall %d" % mode, "impl": out, "why": ["%d accesses exceed the proved bound %d" % (n, bound)]})
+                bad.append({"schedule": "stall %s" % mode, "impl": out, "why": ["%d accesses exceed the proved bound %d" % (n, bound)]})
             if mode == 4:
                 continue          # the call returns at once (the generation is stable at 0); only its returning is required here
             if ret != "E":
-                bad.append({"schedule": "stall %d" % mode, "impl": out, "why": ["a call that can never see a stable generation returned %s" % ret]})
+                bad.append({"schedule": "stall %s" % mode, "impl": out, "why": ["a call that can never see a stable generation returned %s" % ret]})
             if mode == 3:
                 nxt = out.split()[4]
                 cells = [int(x) for x in nxt.split(",")] if nxt != "E" else None
@@ -50,7 +52,7 @@ def stall_part(res, cfg, binary, rng):
                                         "client's previous snapshot (publication 1); it returned %s" % nxt]})
             measured = (n - 2) // per_iter if (n - 2) % per_iter == 0 else None
             ok = measured == cfg["retries"]
-            res.oblige("measured-retry-budget[%s,mode %d] = c_retries of the model (%d)" % (prof, mode, cfg["retries"]), ok)
+            res.oblige("measured-retry-budget[%s,mode %s] = c_retries of the model (%d)" % (prof, mode, cfg["retries"]), ok)
             if not ok and not bad:
                 res.violation({"property": "C18", "kind": "obligation",
                                "obligation": "retry budget measured on the running code (%s accesses, %s per iteration) differs from the model's %d" % (n, per_iter, cfg["retries"]),
